@@ -205,7 +205,7 @@ to /repo; the later evaluations ran in scratch worktrees through `VERIF_REPO`). 
   ranges; C05 flagged the zero-sized tail of a recorded whole-block deletion.
 
 * Round 6 (agents given the one-line summaries of everything tried before, so that they look elsewhere; 20 agents in
-  parallel, three changes each): at the first evaluation ROUND6_FIRST. The misses were once more blind spots of the
+  parallel, three changes each): at the first evaluation 29 of the 57 changes evaluated then were caught with a failing input, 4 only as a broken correspondence, 23 were missed and one (C13/r6m1, which renames the method the recorder wraps) made the runner fail - the recorder now tolerates a missing observation point and reports it as a broken correspondence; the three C20 changes were first evaluated after the strengthening, where two of them and C07/r6m2 turned out to stall the check (a self-retarget makes the real ReferenceCache loop forever; a class-level list makes every further rewrite slower) - a history the real code does not finish within ten seconds is now a failing history, and exploration stops once twenty failing inputs are at hand. The misses were once more blind spots of the
   generators and two oracles that read a value from the code under test: no two functions of one name for an
   ENTRYPOINT_NAME filter (C07), no scope registrations in C01's byte check and no CFI-bearing cases in C04's table
   check (both now run a share of C07's and C08's cases), no module that already holds an empty block in front of a
@@ -217,7 +217,7 @@ to /repo; the later evaluations ran in scratch worktrees through `VERIF_REPO`). 
   rendered again (C14), no context with a DEBUG logger and no direct count of the scratch registers handed out (C16),
   no one-shot iterable as argument list (C17), no fixed-width ISA and the ABI's attribute table read from the code
   (C18 - the oracle now uses the psABI's table written down in the runner), no retarget and deletion of one symbol in
-  one context (C19). After the strengthening the whole round was evaluated again under `VERIF_SEED=1`: ROUND6_FINAL.
+  one context (C19). After the strengthening the whole round was evaluated again under `VERIF_SEED=1` (the three stalling changes once more under seed 0 after their repair): 54 of 60 caught with a failing input, 2 only as a broken correspondence (C02/r6m1, C03/r6m2), 4 missed.
   Not caught and left so, with the reason: C02/r6m3 (a label at the very end of a patch's extra section inside an
   explicit CFI procedure of an inserted function - the generator has no inserted functions with cold sections that end in
   a label), C05/r6m2 (two sections of one name, one of them without byte intervals - the builder names sections
